@@ -88,6 +88,9 @@ static void *thread_main(void *arg) {
             break; }
         case O_COMPARE: {
             if(!slot[0] || !slot[1] || slot_td[0] != slot_td[1]) { r.a = -100; break; }
+            // compare_struct is not among the calls the property quantifies over and INTEGER_compare / OCTET_STRING_compare
+            // dereference buf of an empty value (observed, out of scope - DESIGN 15.5): only compare structures without NULL buffers
+            if(has_null_buf_string(slot_td[0], slot[0]) || has_null_buf_string(slot_td[1], slot[1])) { r.a = -101; break; }
             r.a = slot_td[0]->op->compare_struct(slot_td[0], slot[0], slot[1]);
             break; }
         case O_FREE: {
